@@ -261,20 +261,23 @@ fn run(
     args.insecure_rng_seed = Some(sc.seed);
     // the simulation runs in its own thread (the hook log is thread-local): a run that
     // never returns is recorded as a hang instead of stalling the driver
-    let (tx, rx) = std::sync::mpsc::channel();
     let (mc, ms) = (mc.to_vec(), ms.to_vec());
-    std::thread::spawn(move || {
+    let (r, recs) = match verif_harness::watchdog::run(move || {
         if hooks {
             verif::enable();
         }
         let r = catch_unwind(AssertUnwindSafe(|| sim_advanced(&mc, &ms, &mut sq, &args)));
         let recs = verif::take();
         verif::disable();
-        let _ = tx.send((r.map_err(panic_msg), recs));
-    });
-    let (r, recs) = match rx.recv_timeout(Duration::from_secs(20)) {
-        Ok(x) => x,
-        Err(_) => return Err("HANG: sim_advanced did not return within 20 s".to_string()),
+        (r.map_err(panic_msg), recs)
+    }, Duration::from_secs(20), Duration::from_secs(600)) {
+        verif_harness::watchdog::Outcome::Done(x) => x,
+        // 20 s of CPU time (not wall-clock time) inside one simulation
+        verif_harness::watchdog::Outcome::Hang => return Err("HANG: sim_advanced did not return within 20 s of CPU time".to_string()),
+        verif_harness::watchdog::Outcome::Starved => {
+            eprintln!("sim_driver: a simulation got no CPU for 600 s; giving up");
+            std::process::exit(2);
+        }
     };
     let lines: Vec<Value> = recs.iter().map(|r| rec_json(r, &clock)).collect();
     // accumulated aggregate delays shift base times that may never be logged: keep them in range too
